@@ -38,6 +38,7 @@ type cexBuilder struct {
 	failed string            // reason the input cannot be built
 	imports map[string]string // alias -> path
 	itagAllowed map[string][]int // (itag t) -> dynamic type tags that can be constructed for that position
+	timeTerms   map[string]bool
 	tmp    int
 }
 
@@ -88,13 +89,26 @@ func (b *cexBuilder) qualify(t types.Type) string {
 
 // goValue builds a Go expression of type t whose value is what `term` denotes in the model (entry heap).
 func (b *cexBuilder) goValue(term string, t types.Type, depth int) string {
-	if depth > 4 {
-		return b.fail("value nested too deeply")
+	if depth > 3 {
+		switch types.Unalias(t).Underlying().(type) {
+		case *types.Interface, *types.Pointer, *types.Slice, *types.Map:
+			return "nil" // deeper structure is left out (the replay decides whether the input still fails)
+		case *types.Struct:
+			if !isTime(t) {
+				return b.fail("value nested too deeply")
+			}
+		}
 	}
 	x := b.x
 	t0 := t
 	t = types.Unalias(t)
 	if isTime(t) {
+		if b.vals == nil {
+			if b.timeTerms == nil {
+				b.timeTerms = map[string]bool{}
+			}
+			b.timeTerms[term] = true
+		}
 		v, ok := b.val(term)
 		if !ok {
 			return "time.Time{}"
@@ -218,6 +232,41 @@ func (b *cexBuilder) goValue(term string, t types.Type, depth int) string {
 			b.sliceElem(term, u.Elem(), i, depth)
 		}
 		return "nil"
+	case *types.Map:
+		// the keys that matter are the ones the path (or the clause) looks up: key terms are collected from the query
+		ks, vs := x.TM.Sort(u.Key()), x.TM.Sort(u.Elem())
+		hn, vn := x.TM.MapHas(ks, vs)+"@0", x.TM.MapVal(ks, vs)+"@0"
+		if !b.declared(hn) {
+			if v, ok := b.val(term); ok {
+				if n, ok := parseIntVal(v); ok && n == 0 {
+					return "nil"
+				}
+			}
+			return b.qualify(t0) + "{}"
+		}
+		keys := b.mapKeyTerms(hn, vn, term)
+		rv, rok := b.val(term)
+		if b.vals != nil && rok {
+			if n, ok := parseIntVal(rv); ok && n == 0 {
+				return "nil"
+			}
+		}
+		var entries []string
+		seen := map[string]bool{}
+		for _, k := range keys {
+			hv, ok := b.val(Select(Select(hn, term), k))
+			kg := b.goValue(k, u.Key(), depth+1)
+			vg := "nil"
+			if b.declared(vn) {
+				vg = b.goValue(Select(Select(vn, term), k), u.Elem(), depth+1)
+			}
+			if b.vals == nil || !ok || hv != "true" || seen[kg] {
+				continue
+			}
+			seen[kg] = true
+			entries = append(entries, kg+": "+vg)
+		}
+		return b.qualify(t0) + "{" + strings.Join(entries, ", ") + "}"
 	case *types.Interface:
 		tv, ok := b.val(app("itag", term))
 		if b.vals == nil {
@@ -255,6 +304,60 @@ func (b *cexBuilder) goValue(term string, t types.Type, depth int) string {
 	return b.fail("type %s", t)
 }
 
+// mapKeyTerms lists the key terms with which the query reads rows of the map `ref` (bound variables excluded).
+func (b *cexBuilder) mapKeyTerms(hn, vn, ref string) []string {
+	var text strings.Builder
+	for _, a := range b.o.Assume {
+		text.WriteString(a)
+		text.WriteByte(' ')
+	}
+	text.WriteString(b.o.Goal)
+	t := text.String()
+	seen := map[string]bool{}
+	var out []string
+	for _, arr := range []string{hn, vn} {
+		prefix := "(select (select " + arr + " " + ref + ") "
+		for at := 0; ; {
+			i := strings.Index(t[at:], prefix)
+			if i < 0 {
+				break
+			}
+			start := at + i + len(prefix)
+			// one balanced term
+			depth, end := 0, start
+			for end < len(t) {
+				c := t[end]
+				if c == '(' {
+					depth++
+				} else if c == ')' {
+					if depth == 0 {
+						break
+					}
+					depth--
+					if depth == 0 {
+						end++
+						break
+					}
+				} else if c == ' ' && depth == 0 {
+					break
+				}
+				end++
+			}
+			k := t[start:end]
+			at = end
+			if k == "" || strings.Contains(k, "!b") || strings.Contains(k, "!q") || seen[k] {
+				continue
+			}
+			seen[k] = true
+			out = append(out, k)
+			if len(out) >= 10 {
+				return out
+			}
+		}
+	}
+	return out
+}
+
 func (b *cexBuilder) constructible(t types.Type) bool {
 	t = types.Unalias(t)
 	if isTime(t) || isKeyUsage(t) {
@@ -276,6 +379,8 @@ func (b *cexBuilder) constructible(t types.Type) bool {
 		return b.constructible(u.Elem())
 	case *types.Struct:
 		return !b.x.TM.IsOpaqueStruct(t)
+	case *types.Interface:
+		return u.NumMethods() == 0
 	}
 	return false
 }
@@ -471,7 +576,7 @@ func (g *goTr) bad(format string, a ...any) string {
 }
 
 var unsupportedBuiltins = map[string]bool{"old": true, "called": true, "ncalls": true, "lastret": true, "lastarg": true, "allocated": true,
-	"bigval": true, "elemptr": true, "fieldptr": true, "fnresult": true, "lent": true, "lentany": true, "panicked": true, "chanlen": true, "hashable": true, "tostr": true, "zero": true}
+	"bigval": true, "fnresult": true, "lent": true, "lentany": true, "panicked": true, "chanlen": true, "hashable": true, "tostr": true, "zero": true}
 
 func (g *goTr) tr(e Expr) string {
 	if g.err != "" {
@@ -530,7 +635,20 @@ func (g *goTr) tr(e Expr) string {
 		}
 		return "(" + a + " " + e.Op + " " + c + ")"
 	case *ESel:
-		// pkg.Name
+		// pkg.Name (an import alias may coincide with a bound name such as `result`: a constant, variable or function
+		// of the package wins over a field selection)
+		if id, ok := e.X.(*EIdent); ok && (g.names[id.Name] != "" || g.bound[id.Name]) {
+			if path, ok := g.cf.Imports[id.Name]; ok {
+				if tp := g.b.x.P.TPkgs[path]; tp != nil {
+					if o := tp.Scope().Lookup(e.Name); o != nil {
+						if _, isType := o.(*types.TypeName); !isType {
+							g.b.imports[id.Name] = path
+							return id.Name + "." + e.Name
+						}
+					}
+				}
+			}
+		}
 		if id, ok := e.X.(*EIdent); ok && g.names[id.Name] == "" && !g.bound[id.Name] {
 			if path, ok := g.cf.Imports[id.Name]; ok {
 				if g.b.x.Fn.Pkg != nil && path == g.b.x.Fn.Pkg.Pkg.Path() {
@@ -541,6 +659,12 @@ func (g *goTr) tr(e Expr) string {
 			}
 		}
 		if e.Name == "err" || strings.HasPrefix(e.Name, "result") {
+			// f$(args).resultK / .err: call the real function of this package and pick a result
+			if c, ok := e.X.(*ECall); ok {
+				if id, ok := c.Fun.(*EIdent); ok && strings.HasSuffix(id.Name, "$") {
+					return g.progCall(strings.TrimSuffix(id.Name, "$"), c.Args, e.Name)
+				}
+			}
 			return g.bad("selection of a call result")
 		}
 		return g.tr(e.X) + "." + e.Name
@@ -573,12 +697,18 @@ func (g *goTr) tr(e Expr) string {
 				}
 			case "tostring":
 				return "string(" + g.tr(e.Args[0]) + ")"
+			case "elemptr":
+				return "(&" + g.tr(e.Args[0]) + "[" + g.tr(e.Args[1]) + "])"
+			case "fieldptr":
+				if id, ok := e.Args[1].(*EIdent); ok {
+					return "(&" + g.tr(e.Args[0]) + "." + id.Name + ")"
+				}
 			}
 			if unsupportedBuiltins[f.Name] || f.Name == "typeof" {
 				return g.bad("%s()", f.Name)
 			}
 			if strings.HasSuffix(f.Name, "$") {
-				return g.bad("program function %s", f.Name)
+				return g.progCall(strings.TrimSuffix(f.Name, "$"), e.Args, "result")
 			}
 			return g.specCall(g.b.x.P.Specs[g.cf.PkgPath+"."+f.Name], f.Name, e.Args, g.cf)
 		case *ESel:
@@ -610,6 +740,43 @@ func (g *goTr) tr(e Expr) string {
 		return g.bad("type literal outside typeof/unbox")
 	}
 	return g.bad("expression %T", e)
+}
+
+// progCall: the value of result `which` of a call of the package's own function name(args).
+func (g *goTr) progCall(name string, args []Expr, which string) string {
+	if g.b.x.Fn.Pkg == nil {
+		return g.bad("program function %s", name)
+	}
+	fo, ok := g.b.x.Fn.Pkg.Pkg.Scope().Lookup(name).(*types.Func)
+	if !ok {
+		return g.bad("program function %s", name)
+	}
+	sig := fo.Type().(*types.Signature)
+	n := sig.Results().Len()
+	idx := -1
+	switch {
+	case which == "err":
+		idx = n - 1
+	case which == "result":
+		idx = 0
+	default:
+		fmt.Sscanf(strings.TrimPrefix(which, "result"), "%d", &idx)
+	}
+	if idx < 0 || idx >= n {
+		return g.bad("result %s of %s", which, name)
+	}
+	var as, rs []string
+	for _, a := range args {
+		as = append(as, g.tr(a))
+	}
+	for i := 0; i < n; i++ {
+		if i == idx {
+			rs = append(rs, "r")
+		} else {
+			rs = append(rs, "_")
+		}
+	}
+	return fmt.Sprintf("func() %s { %s := %s(%s); return r }()", g.b.qualify(sig.Results().At(idx).Type()), strings.Join(rs, ", "), name, strings.Join(as, ", "))
 }
 
 func (g *goTr) typeText(t string) string {
@@ -711,6 +878,39 @@ func (g *goTr) quant(e *EQuant) string {
 	return fmt.Sprintf("func() bool { %s if (%s) && (%s) { return true }; %s; return false }()", strings.Join(loops, " "), gd, bd, closes)
 }
 
+// unrolledCandidates re-runs the function of obligation o with its loops unrolled k times (no invariants, no havoc)
+// and returns the obligations of that run that are worth asking a model for: the same clause first, then the other
+// postconditions and safety obligations. Obligations of the cut-loop run (invariant preservation, ...) have models
+// whose loop state need not be reachable from the model's inputs; on the unrolled paths every model is an execution.
+func unrolledCandidates(p *Prog, o *Obligation, k int) []*Obligation {
+	x2 := NewExec(p, o.X.Fn)
+	x2.Unroll = k
+	x2.MaxStates = 1500
+	func() {
+		defer func() { recover() }()
+		x2.Run()
+	}()
+	var same, posts, safety []*Obligation
+	for _, c := range x2.Obls {
+		if c.Smoke || c.Goal == "true" {
+			continue
+		}
+		switch {
+		case c.Name == o.Name:
+			same = append(same, c)
+		case c.Kind == "post":
+			posts = append(posts, c)
+		case c.Kind == "nil" || c.Kind == "bounds" || c.Kind == "typeassert" || c.Kind == "hashable" || c.Kind == "div0" || c.Kind == "nilmap" || c.Kind == "panic" || c.Kind == "makeslice":
+			safety = append(safety, c)
+		}
+	}
+	out := append(append(same, posts...), safety...)
+	if len(out) > 60 {
+		out = out[:60]
+	}
+	return out
+}
+
 // buildReplayTest produces the in-package test for obligation o, or a reason why none can be built.
 func buildReplayTest(p *Prog, o *Obligation, smtDir string) (src, pkgDir, how, reason string) {
 	x := o.X
@@ -732,7 +932,7 @@ func buildReplayTest(p *Prog, o *Obligation, smtDir string) (src, pkgDir, how, r
 			return "", "", "", "parameter " + prm.Name() + " is an engine pointer"
 		}
 		switch types.Unalias(prm.Type()).Underlying().(type) {
-		case *types.Map, *types.Signature, *types.Chan:
+		case *types.Signature, *types.Chan:
 			return "", "", "", "parameter " + prm.Name() + " of type " + prm.Type().String()
 		}
 		b.goValue(v.Term, prm.Type(), 0)
@@ -751,6 +951,9 @@ func buildReplayTest(p *Prog, o *Obligation, smtDir string) (src, pkgDir, how, r
 	for _, t := range terms {
 		if strings.HasPrefix(t, "(slen ") {
 			small = append(small, "(assert (<= "+t+" 3))")
+		}
+		if b.timeTerms[t] {
+			small = append(small, "(assert (and (>= "+t+" 0) (<= "+t+" 1000000000000000000)))")
 		}
 		if strings.HasPrefix(t, "(strlen ") {
 			small = append(small, "(assert (<= "+t+" 40))")
